@@ -143,7 +143,8 @@ def referenced_namespaces(obj, schema, acc):
             referenced_namespaces(v, schema, acc)
 
 
-def render_schema(schema, roots=(), route_ns=None, annotations=None, patched=None, extra_refs=(), examples=None):
+def render_schema(schema, roots=(), route_ns=None, annotations=None, patched=None, extra_refs=(), examples=None,
+                  reverse_defs=False):
     """schema: name -> def.  Returns list of (filename, text), one file per namespace.
 
     roots: type expressions; each becomes `route probe<i>(T, Void, Void)` in route_ns so that
@@ -186,7 +187,7 @@ def render_schema(schema, roots=(), route_ns=None, annotations=None, patched=Non
         for a in sorted(ann_needed):
             lines.append('annotation %s = %s' % (a, ann_needed[a]))
         lines.append('')
-        for n, d in schema.items():
+        for n, d in (reversed(list(schema.items())) if reverse_defs else schema.items()):
             if d['ns'] != ns:
                 continue
             if d['k'] == 'alias':
